@@ -1,6 +1,7 @@
 import Mathlib.Tactic
 import Mathlib.Data.Nat.Bitwise
 import QG.Lemmas.BackendEmbed
+import QG.Lemmas.BackendCorollaries
 import QG.Spec.Register
 /-!
 # Bridge between flat-index Kronecker products (C01) and the bit-vector register (C02)
@@ -166,5 +167,294 @@ theorem E2_flat {n : ℕ} (M : Mat R) (q : ℕ) (hq : q + 1 < n) (φ : State R n
   simp only [ha', Bool.toNat_true, Bool.toNat_false]
   norm_num
   ring
+
+/-! ### the items of a layer -/
+
+/-- the item list of the blocks of a layer whose first block sits on qubit `q`: a 2x2 entry is `[M, [q]]`, a 4x4 entry
+with its placeholder (after or before it) is `[G, [q, q+1]]` -/
+def itemsFrom : List (Block (Mat R)) → ℕ → List (QG.Model.Optimizer.Item (M2 R) (M4 R))
+  | [], _ => []
+  | .scalar :: .mat M :: rest, q => .two (toM4 M) q (q + 1) :: itemsFrom rest (q + 2)
+  | .scalar :: _, _ => []                                  -- not well formed
+  | .mat M :: rest, q =>
+    if M.dim = 2 then .one (toM2 M) q :: itemsFrom rest (q + 1)
+    else match rest with
+      | .scalar :: rest' => .two (toM4 M) q (q + 1) :: itemsFrom rest' (q + 2)
+      | _ => []                                            -- not well formed
+
+theorem pow_split2 (q k n : ℕ) (h : q + 1 + k = n) : 2 ^ q * 2 * 2 ^ k = 2 ^ n := by
+  subst h; rw [pow_add, pow_add]; norm_num
+
+theorem pow_split4 (q k n : ℕ) (h : q + 2 + k = n) : 2 ^ q * 4 * 2 ^ k = 2 ^ n := by
+  subst h; rw [pow_add, pow_add]; norm_num
+
+/-- the qubits of an item -/
+def itemQ : QG.Model.Optimizer.Item (M2 R) (M4 R) → List ℕ
+  | .one _ q => [q]
+  | .two _ a b => [a, b]
+
+/-- the items act on the qubits the (import-free, executable) `itemQubits` of the model lists -/
+theorem itemsFrom_qubits (l : List (Block (Mat R))) (q : ℕ) :
+    (itemsFrom l q).map itemQ = itemQubits Mat.dim l q := by
+  fun_induction itemsFrom l q
+  case case4 M rest q h ih =>
+    simp only [List.map_cons, itemQ, ih]
+    cases rest with
+    | nil => simp [itemQubits, h]
+    | cons b r => cases b <;> simp [itemQubits, h]
+  all_goals simp_all [itemQubits, itemQ]
+
+theorem applyBlocks_congr (pre : ℕ) (l : List (SLeg R)) (v w : ℕ → R) (h : ∀ j < pre * dims l, v j = w j) :
+    ∀ i < pre * dims l, applyBlocks pre l v i = applyBlocks pre l w i := by
+  induction l generalizing pre v w with
+  | nil => intro i hi; exact h i hi
+  | cons b rest ih =>
+    obtain ⟨d, o⟩ := b
+    intro i hi
+    have hN : pre * dims ((d, o) :: rest) = pre * d * dims rest := by simp only [dims]; ring
+    rw [hN] at h hi
+    simp only [applyBlocks]
+    exact ih (pre * d) _ _ (fun j _ => mulVec_congr (fun _ _ => rfl) h) i hi
+
+/-- one block, then the rest -/
+theorem applyBlocks_step (pre d : ℕ) (hpre : 0 < pre) (hd : 0 < d) (B : FMat R) (rest : List (SLeg R))
+    (hD : 0 < dims rest) (v w : ℕ → R)
+    (hw : ∀ j < pre * d * dims rest,
+      w j = einsumList [((pre, none) : SLeg R), (d, some B), (dims rest, none)] v j) :
+    ∀ i < pre * d * dims rest, applyBlocks pre ((d, some B) :: rest) v i = applyBlocks (pre * d) rest w i := by
+  intro i hi
+  simp only [applyBlocks]
+  apply applyBlocks_congr (pre * d) rest _ _ _ i hi
+  intro j hj
+  rw [hw j hj]
+  have hdm : dims [((pre, none) : SLeg R), (d, some B), (dims rest, none)] = pre * d * dims rest := by
+    simp only [dims]; ring
+  have hpos : ∀ x ∈ [((pre, none) : SLeg R), (d, some B), (dims rest, none)], 0 < x.1 := by
+    intro x hx
+    simp only [List.mem_cons, List.not_mem_nil, or_false] at hx
+    rcases hx with rfl | rfl | rfl <;> assumption
+  rw [einsumList_eq _ hpos _ _ (by rw [hdm]; exact hj), hdm]
+  rfl
+
+/-- a scalar placeholder is the factor 1 -/
+theorem applyBlocks_scalar (pre : ℕ) (hpre : 0 < pre) (rest : List (SLeg R)) (hD : 0 < dims rest) (v : ℕ → R) :
+    ∀ i < pre * dims rest,
+      applyBlocks pre (((1, some (idMat 1)) : SLeg R) :: rest) v i = applyBlocks pre rest v i := by
+  intro i hi
+  have hi' : i < pre * 1 * dims rest := by rw [Nat.mul_one]; exact hi
+  rw [applyBlocks_step pre 1 hpre (by omega) (idMat 1) rest hD v v ?_ i hi', Nat.mul_one]
+  intro j hj
+  obtain ⟨h, a, lo, _, ha, hlo, rfl⟩ := idx3_exists pre 1 (dims rest) j hD (by omega) hj
+  have ha0 : a = 0 := by omega
+  subst ha0
+  rw [einsum_mid _ 1 _ hD _ _ h 0 lo (by omega) hlo]
+  simp [idMat]
+
+theorem sem_itemsFrom {n : ℕ} (blocks : List (Block (Mat R))) (hw : WFI blocks) (q : ℕ)
+    (hqn : q + blocks.length = n) (φ : State R n) :
+    ∀ i < 2 ^ n, flatOf ((gateAlgebra R n).sem (itemsFrom blocks q) φ) i =
+      applyBlocks (2 ^ q) (blocks.map blockLeg) (flatOf φ) i := by
+  induction hw generalizing q φ with
+  | nil => intro i _; simp [itemsFrom, applyBlocks, one_apply']
+  | m2 M rest hM hr ih =>
+    intro i hi
+    rw [List.length_cons] at hqn
+    have hq : q < n := by omega
+    have hlen : rest.length = n - 1 - q := by omega
+    have hdr : dims (rest.map blockLeg) = 2 ^ (n - 1 - q) := by rw [hr.length_dims, hlen]
+    have hDpos : 0 < dims (rest.map blockLeg) := by rw [hdr]; exact Nat.pow_pos (by omega)
+    have hN : 2 ^ q * 2 * dims (rest.map blockLeg) = 2 ^ n := by
+      rw [hdr]; exact pow_split2 q _ n (by omega)
+    have hitems : itemsFrom (Block.mat M :: rest) q =
+        .one (toM2 M) q :: itemsFrom rest (q + 1) := by
+      cases rest with
+      | nil => simp [itemsFrom, hM]
+      | cons b r => cases b <;> simp [itemsFrom, hM]
+    rw [hitems, GateAlgebra.sem_cons, mul_apply']
+    have hitem : (gateAlgebra R n).item (.one (toM2 M) q) = E1 (toM2 M) ⟨q, hq⟩ := by
+      show (e1 (toM2 M) q : Op R n) = _
+      exact e1_eq _ _ hq
+    rw [hitem, ih (q + 1) (by omega) _ i hi]
+    have hb : blockLeg (Block.mat M) = ((2, some (fn M)) : SLeg R) := by
+      simp [blockLeg, Block.toPy, pvLeg, matLeg, hM]
+    rw [List.map_cons, hb]
+    rw [applyBlocks_step (2 ^ q) 2 (Nat.pow_pos (by omega)) (by omega) (fn M) _ hDpos (flatOf φ)
+      (flatOf (E1 (toM2 M) ⟨q, hq⟩ φ)) ?_ i (by rw [hN]; exact hi), pow_succ]
+    intro j hj
+    rw [hdr]
+    exact E1_flat M q hq φ j (by rw [← hN]; exact hj)
+  | m4after M rest hM hr ih =>
+    intro i hi
+    rw [List.length_cons, List.length_cons] at hqn
+    have hq : q + 1 < n := by omega
+    have hlen : rest.length = n - 2 - q := by omega
+    have hdr : dims (rest.map blockLeg) = 2 ^ (n - 2 - q) := by rw [hr.length_dims, hlen]
+    have hDpos : 0 < dims (rest.map blockLeg) := by rw [hdr]; exact Nat.pow_pos (by omega)
+    have hN : 2 ^ q * 4 * dims (rest.map blockLeg) = 2 ^ n := by
+      rw [hdr]; exact pow_split4 q _ n (by omega)
+    have hitems : itemsFrom (Block.mat M :: Block.scalar :: rest) q =
+        .two (toM4 M) q (q + 1) :: itemsFrom rest (q + 2) := by simp [itemsFrom, hM]
+    rw [hitems, GateAlgebra.sem_cons, mul_apply']
+    have hitem : (gateAlgebra R n).item (.two (toM4 M) q (q + 1)) = E2 (toM4 M) ⟨q, by omega⟩ ⟨q + 1, hq⟩ := by
+      show (e2 (toM4 M) q (q + 1) : Op R n) = _
+      exact e2_eq _ _ _ (by omega) hq
+    rw [hitem, ih (q + 2) (by omega) _ i hi]
+    have hb : blockLeg (Block.mat M) = ((4, some (fn M)) : SLeg R) := by
+      simp [blockLeg, Block.toPy, pvLeg, matLeg, hM]
+    have hs : blockLeg (Block.scalar : Block (Mat R)) = ((1, some (idMat 1)) : SLeg R) := rfl
+    rw [List.map_cons, List.map_cons, hb, hs]
+    have hds : dims (((1, some (idMat 1)) : SLeg R) :: rest.map blockLeg) = dims (rest.map blockLeg) := by
+      simp [dims]
+    have hp4 : 2 ^ (q + 2) = 2 ^ q * 4 := by rw [pow_add]; norm_num
+    rw [applyBlocks_step (2 ^ q) 4 (Nat.pow_pos (by omega)) (by omega) (fn M) _ (by rw [hds]; exact hDpos) (flatOf φ)
+      (flatOf (E2 (toM4 M) ⟨q, by omega⟩ ⟨q + 1, hq⟩ φ)) ?_ i (by rw [hds, hN]; exact hi)]
+    · rw [applyBlocks_scalar (2 ^ q * 4) (by positivity) _ hDpos _ i (by rw [hN]; exact hi), hp4]
+    · intro j hj
+      rw [hds] at hj ⊢
+      rw [hdr]
+      exact E2_flat M q hq φ j (by rw [← hN]; exact hj)
+  | m4before M rest hM hr ih =>
+    intro i hi
+    rw [List.length_cons, List.length_cons] at hqn
+    have hq : q + 1 < n := by omega
+    have hlen : rest.length = n - 2 - q := by omega
+    have hdr : dims (rest.map blockLeg) = 2 ^ (n - 2 - q) := by rw [hr.length_dims, hlen]
+    have hDpos : 0 < dims (rest.map blockLeg) := by rw [hdr]; exact Nat.pow_pos (by omega)
+    have hN : 2 ^ q * 4 * dims (rest.map blockLeg) = 2 ^ n := by
+      rw [hdr]; exact pow_split4 q _ n (by omega)
+    have hitems : itemsFrom (Block.scalar :: Block.mat M :: rest) q =
+        .two (toM4 M) q (q + 1) :: itemsFrom rest (q + 2) := by simp [itemsFrom]
+    rw [hitems, GateAlgebra.sem_cons, mul_apply']
+    have hitem : (gateAlgebra R n).item (.two (toM4 M) q (q + 1)) = E2 (toM4 M) ⟨q, by omega⟩ ⟨q + 1, hq⟩ := by
+      show (e2 (toM4 M) q (q + 1) : Op R n) = _
+      exact e2_eq _ _ _ (by omega) hq
+    rw [hitem, ih (q + 2) (by omega) _ i hi]
+    have hb : blockLeg (Block.mat M) = ((4, some (fn M)) : SLeg R) := by
+      simp [blockLeg, Block.toPy, pvLeg, matLeg, hM]
+    have hs : blockLeg (Block.scalar : Block (Mat R)) = ((1, some (idMat 1)) : SLeg R) := rfl
+    rw [List.map_cons, List.map_cons, hb, hs]
+    have hdb : dims (((4, some (fn M)) : SLeg R) :: rest.map blockLeg) = 4 * dims (rest.map blockLeg) := by
+      simp [dims]
+    have hp4 : 2 ^ (q + 2) = 2 ^ q * 4 := by rw [pow_add]; norm_num
+    rw [applyBlocks_scalar (2 ^ q) (by positivity) _ (by rw [hdb]; omega) _ i
+      (by rw [hdb, ← Nat.mul_assoc, hN]; exact hi)]
+    rw [applyBlocks_step (2 ^ q) 4 (Nat.pow_pos (by omega)) (by omega) (fn M) _ hDpos (flatOf φ)
+      (flatOf (E2 (toM4 M) ⟨q, by omega⟩ ⟨q + 1, hq⟩ φ)) ?_ i (by rw [hN]; exact hi), hp4]
+    intro j hj
+    rw [hdr]
+    exact E2_flat M q hq φ j (by rw [← hN]; exact hj)
+
+/-! ### whole layer lists -/
+
+open QG.Model.Optimizer in
+/-- an item as the caller of `BinaryBackend.statevector` writes it -/
+def toRaw : QG.Model.Optimizer.Item (M2 R) (M4 R) → QG.Model.Optimizer.Raw (M2 R) (M4 R)
+  | .one m q => .single m q
+  | .two m a b => .pair m a b
+
+theorem normalize_toRaw (x : QG.Model.Optimizer.Item (M2 R) (M4 R)) :
+    QG.Model.Optimizer.normalize (toRaw x) = x := by
+  cases x <;> rfl
+
+/-- the same matrices item by item, layer after layer (every layer starts at qubit 0) -/
+def layersItems (L : List (Layer (Mat R))) : List (QG.Model.Optimizer.Item (M2 R) (M4 R)) :=
+  L.flatMap fun l => itemsFrom l 0
+
+theorem wf_itemsFrom {n : ℕ} (blocks : List (Block (Mat R))) (hw : WFI blocks) (q : ℕ)
+    (hqn : q + blocks.length = n) : GateAlgebra.WFList n (itemsFrom blocks q) := by
+  induction hw generalizing q with
+  | nil => intro x hx; simp [itemsFrom] at hx
+  | m2 M rest hM hr ih =>
+    rw [List.length_cons] at hqn
+    have hitems : itemsFrom (Block.mat M :: rest) q = .one (toM2 M) q :: itemsFrom rest (q + 1) := by
+      cases rest with
+      | nil => simp [itemsFrom, hM]
+      | cons b r => cases b <;> simp [itemsFrom, hM]
+    rw [hitems]
+    exact GateAlgebra.WFList.cons (by show q < n; omega) (ih (q + 1) (by omega))
+  | m4after M rest hM hr ih =>
+    rw [List.length_cons, List.length_cons] at hqn
+    have hitems : itemsFrom (Block.mat M :: Block.scalar :: rest) q =
+        .two (toM4 M) q (q + 1) :: itemsFrom rest (q + 2) := by simp [itemsFrom, hM]
+    rw [hitems]
+    exact GateAlgebra.WFList.cons (by show q < n ∧ q + 1 < n ∧ q ≠ q + 1; omega) (ih (q + 2) (by omega))
+  | m4before M rest hM hr ih =>
+    rw [List.length_cons, List.length_cons] at hqn
+    have hitems : itemsFrom (Block.scalar :: Block.mat M :: rest) q =
+        .two (toM4 M) q (q + 1) :: itemsFrom rest (q + 2) := by simp [itemsFrom]
+    rw [hitems]
+    exact GateAlgebra.WFList.cons (by show q < n ∧ q + 1 < n ∧ q ≠ q + 1; omega) (ih (q + 2) (by omega))
+
+theorem itemsFrom_ne (blocks : List (Block (Mat R))) (hw : WFI blocks) (hne : blocks ≠ []) (q : ℕ) :
+    itemsFrom blocks q ≠ [] := by
+  cases hw with
+  | nil => exact absurd rfl hne
+  | m2 M rest hM hr =>
+    have hitems : itemsFrom (Block.mat M :: rest) q = .one (toM2 M) q :: itemsFrom rest (q + 1) := by
+      cases rest with
+      | nil => simp [itemsFrom, hM]
+      | cons b r => cases b <;> simp [itemsFrom, hM]
+    rw [hitems]; simp
+  | m4after M rest hM hr => simp [itemsFrom, hM]
+  | m4before M rest hM hr => simp [itemsFrom]
+
+theorem wf_layersItems {n : ℕ} (L : List (Layer (Mat R))) (hwf : ∀ l ∈ L, WFI l ∧ l.length = n) :
+    GateAlgebra.WFList n (layersItems L) := by
+  intro x hx
+  simp only [layersItems, List.mem_flatMap] at hx
+  obtain ⟨l, hl, hxl⟩ := hx
+  obtain ⟨hw, hlen⟩ := hwf l hl
+  exact wf_itemsFrom l hw 0 (by omega) x hxl
+
+theorem layersItems_ne {n : ℕ} (hn : 1 ≤ n) (L : List (Layer (Mat R))) (hL : L ≠ [])
+    (hwf : ∀ l ∈ L, WFI l ∧ l.length = n) : layersItems L ≠ [] := by
+  obtain ⟨l, rest, rfl⟩ := List.exists_cons_of_ne_nil hL
+  obtain ⟨hw, hlen⟩ := hwf l (by simp)
+  have hl : l ≠ [] := by intro hh; subst hh; simp at hlen; omega
+  have := itemsFrom_ne l hw hl 0
+  simp only [layersItems, List.flatMap_cons]
+  intro hh
+  exact this (List.append_eq_nil_iff.mp hh).1
+
+/-- one layer: the items are multiplication by the layer's Kronecker product -/
+theorem sem_layer {n : ℕ} (l : Layer (Mat R)) (hw : WFI l) (hlen : l.length = n) (φ : State R n) :
+    ∀ i < 2 ^ n, flatOf ((gateAlgebra R n).sem (itemsFrom l 0) φ) i =
+      mulVec (2 ^ n) (layerMat l) (flatOf φ) i := by
+  intro i hi
+  rw [sem_itemsFrom l hw 0 (by omega) φ i hi, pow_zero]
+  have hd : dims (l.map blockLeg) = 2 ^ n := by rw [hw.length_dims, hlen]
+  rw [applyBlocks_eq 1 (by omega) _ hw.good _ i (by rw [hd, Nat.one_mul]; exact hi), hd, Nat.one_mul]
+  have : kronList (((1, none) : SLeg R) :: l.map blockLeg) = layerMat l := by
+    rw [kronList_cons]
+    exact kron_one_left (isCut_kronList _ hw.good)
+  rw [this]
+
+/-- all layers: the items compute `specFn` -/
+theorem sem_layers {n : ℕ} (L : List (Layer (Mat R))) (hwf : ∀ l ∈ L, WFI l ∧ l.length = n) (φ : State R n) :
+    ∀ i < 2 ^ n, flatOf ((gateAlgebra R n).sem (layersItems L) φ) i = specFn n L (flatOf φ) i := by
+  induction L generalizing φ with
+  | nil => intro i _; simp [layersItems, specFn, one_apply']
+  | cons l rest ih =>
+    intro i hi
+    obtain ⟨hw, hlen⟩ := hwf l (by simp)
+    have hrest := ih (fun l' hl' => hwf l' (by simp [hl']))
+    have e : layersItems (l :: rest) = itemsFrom l 0 ++ layersItems rest := by simp [layersItems]
+    rw [e, GateAlgebra.sem_append, mul_apply', hrest _ i hi]
+    simp only [specFn, List.foldl_cons]
+    exact specFn_congr' n rest _ _ (fun j hj => sem_layer l hw hlen φ j hj) i hi
+
+/-- the flat list of a state, as the array of its flat vector -/
+theorem listOf_eq_ofFn {n : ℕ} (φ : State R n) :
+    listOf φ = (Array.ofFn (n := 2 ^ n) fun i => flatOf φ i.val).toList := by
+  apply List.ext_getElem
+  · simp [listOf_length]
+  · intro i h1 h2
+    simp [listOf, flatOf]
+
+theorem flatOf_vecOf {n : ℕ} (ψ : Array R) (j : ℕ) (hj : j < 2 ^ n) :
+    flatOf (vecOf ψ.toList : State R n) j = vfn ψ j := by
+  simp only [flatOf, vecOf, idx_bitsFn n j hj, vfn]
+  simp [List.getD, Array.getD]
+  by_cases h : j < ψ.size <;> simp [h]
 
 end QG.Lemmas.Backend
